@@ -70,6 +70,22 @@ func (w *Walker) loop(s ast.Stmt, in []*State) []*State {
 func (w *Walker) assignedLocals(body ast.Node, st *State) map[*types.Var][]ast.Node {
 	res := map[*types.Var][]ast.Node{}
 	note := func(e ast.Expr, at ast.Node) {
+		if fv := w.localFieldVar(e); fv != nil {
+			if _, known := st.Env[fv]; !known {
+				// first touched inside the loop: the field of a zero-initialised (or earlier defined) local
+				bv, _ := w.info.Uses[ast.Unparen(ast.Unparen(e).(*ast.SelectorExpr).X).(*ast.Ident)].(*types.Var)
+				st.Env[fv] = fresh("fld_" + fv.Name() + "_")
+				if base, ok := st.Env[bv]; ok && base != nil && len(base.Fields) == len(base.Args) {
+					for j, fnm := range base.Fields {
+						if fnm == w.A.fieldVarField[fv].Name() {
+							st.Env[fv] = base.Args[j]
+						}
+					}
+				}
+			}
+			res[fv] = append(res[fv], at)
+			return
+		}
 		if id, ok := ast.Unparen(e).(*ast.Ident); ok {
 			if v, ok := w.info.Uses[id].(*types.Var); ok && !v.IsField() {
 				if _, known := st.Env[v]; known {
@@ -1072,6 +1088,13 @@ func (w *Walker) inlineCall(fn *FuncInfo, recv *Term, args []*Term, st *State, n
 			for _, t := range o.ts {
 				if t != nil && (t.K == KCount || t.K == KExists) {
 					useful = true
+				}
+				if t != nil && len(t.Fields) > 0 {
+					for _, a := range t.Args {
+						if a != nil && (a.K == KCount || a.K == KExists) {
+							useful = true // a result struct carrying counts
+						}
+					}
 				}
 			}
 		}
